@@ -221,13 +221,18 @@ var clientNetPool = []ent{e4("c0a80000", 16), e4("0a000000", 8), e6("20010db8000
 
 var zonePool = []string{"example.org", "Example.ORG.", " corp.test. ", "", "org", "deep.sub.example.net.", "\tx.y.\n", ".",
 	// zones whose labels need escaping, written the way the library renders them
-	"a\\.b.example.org", "sp\\ ace.test.", "\\000x.test", "X\\@y.Corp.TEST", "q\\\"uote.test", "\\233t\\233.test."}
+	"a\\.b.example.org", "sp\\ ace.test.", "\\000x.test", "X\\@y.Corp.TEST", "q\\\"uote.test", "\\233t\\233.test.",
+	// the same names in other legal presentation forms (RFC 1035 section 5.1), and texts that are not names
+	"\\069xample.org", "ex\\097mple.ORG.", "\\e\\x\\a\\m\\p\\l\\e.org", "a\\046b.example.org", "sp ace.test", "x\\1y.test", "\\999.test",
+	"\\067orp.test", "a..b.test", ".lead.test", strings.Repeat("l", 64) + ".test", "deep.\\115ub.example.net"}
 
 // names (as label lists) under, next to and around the escaped zones
 var escNamePool = [][]string{
 	{"host", "a.b", "example", "org"}, {"a.b", "example", "org"}, {"b", "example", "org"}, {"a", "b", "example", "org"},
 	{"sp ace", "test"}, {"www", "SP ACE", "test"}, {"space", "test"}, {"\x00x", "test"}, {"h", "\x00X", "test"}, {"000x", "test"},
-	{"x@y", "corp", "test"}, {"m", "X@Y", "corp", "test"}, {"q\"uote", "test"}, {"\xe9t\xe9", "test"}, {"w", "\xe9T\xe9", "test"}}
+	{"x@y", "corp", "test"}, {"m", "X@Y", "corp", "test"}, {"q\"uote", "test"}, {"\xe9t\xe9", "test"}, {"w", "\xe9T\xe9", "test"},
+	{"x1y", "test"}, {"w", "X1Y", "test"}, {"\xe7", "test"}, {"h", "\xe7", "test"}, {"lead", "test"}, {"b", "test"}, {"host", "example", "org"},
+	{"v", "deep", "sub", "example", "net"}}
 
 var qnamePool = []string{"host.example.net.", "www.example.org.", "example.org.", "WWW.EXAMPLE.ORG.", "badexample.org.", "host.badexample.org.",
 	"a.corp.test.", "corp.test.", "xcorp.test.", "org.", "example.org.evil.", "v.deep.sub.example.net.", "sub.example.net.", "x.y.", "ax.y.", "host.Example.Org."}
